@@ -15,7 +15,7 @@ RULE = ("random histories with execution-layer add/remove lists (members, non-me
 def run(tier, seed, work):
     quick = tier == "quick"
     mc = [("MC_Relayer.tla", "MC_Relayer_quick.cfg" if quick else "MC_Relayer_thorough.cfg")]
-    per, depth, nj = (6, 30, 6) if quick else (30, 40, 6)
+    per, depth, nj = (5, 30, 6) if quick else (30, 40, 6)
     groups = []
     for tag, period, timeout, cfg in rc.VARIANTS:
         cfg16 = cfg.replace("Trace_Relayer_", "Trace_Relayer_C16_").replace("rand", "p3t2")
